@@ -99,8 +99,41 @@ fn run(shard: &Shard, rep: &mut Report) {
     }
 }
 
+/// Sub-check name of replay files converted from libFuzzer artifacts (`tools/fuzz.sh C14`).
+pub const FUZZ_SUB: &str = "fuzz/roundtrip";
+
+/// `{ "ty": "VaultMeta", "multi": true, "entropy_hex": ".." }`: the entropy handed to the
+/// generator of one registry type (`multi` = several elements per hash-ordered collection allowed).
+#[derive(Clone, Debug, serde::Serialize, serde::Deserialize, PartialEq, Eq, Hash)]
+pub struct FuzzRoundtripCase {
+    pub ty: String,
+    #[serde(default = "yes")]
+    pub multi: bool,
+    pub entropy_hex: String,
+    /// rendering of the built value (informative; ignored on replay)
+    #[serde(default)]
+    pub shown: String,
+}
+
+fn yes() -> bool {
+    true
+}
+
+pub fn check_fuzz_roundtrip(all: &[TypeDef], c: &FuzzRoundtripCase) -> (CaseInfo, CheckResult) {
+    match hex::decode(&c.entropy_hex) {
+        Ok(entropy) => check(all, &CodecCase { ty: c.ty.clone(), entropy, shown: String::new() }, c.multi),
+        Err(e) => (CaseInfo::default(), Err(Failure::new("harness", format!("bad entropy_hex: {e}")))),
+    }
+}
+
 fn replay(_shard: &Shard, sub: &str, case: &Value) -> CheckResult {
     let all = types();
+    if sub == FUZZ_SUB {
+        return match from_case::<FuzzRoundtripCase>(case) {
+            Ok(c) => check_fuzz_roundtrip(&all, &c).1,
+            Err(e) => Err(Failure::new("harness", e)),
+        };
+    }
     let (_, multi) = sub_of(sub);
     let case: CodecCase = match from_case(case) {
         Ok(c) => c,
